@@ -421,6 +421,15 @@ func (s *ProofStructure) VerifyProofStructure(g *gabikeys.PublicKey, p *Proof) b
 			return false
 		}
 
+		// The commitments are bases of the relations that are verified: they have to be
+		// elements of the group. For a C_i that is zero modulo N (or not invertible) every
+		// reconstructed commitment is zero whatever the responses are, so that any statement
+		// could be "proven".
+		if p.Cs[i].Sign() <= 0 || p.Cs[i].Cmp(g.N) >= 0 ||
+			new(big.Int).GCD(nil, nil, p.Cs[i], g.N).Cmp(big.NewInt(1)) != 0 {
+			return false
+		}
+
 		if p.Cs[i].BitLen() > g.N.BitLen() ||
 			uint(p.DResponses[i].BitLen()) > s.ld+g.Params.Lh+g.Params.Lstatzk+1 ||
 			uint(p.VResponses[i].BitLen()) > g.Params.Lm+g.Params.Lh+g.Params.Lstatzk+1 {
